@@ -19,7 +19,7 @@ func checkC14(c *Ctx) {
 		"(C14.count) the placeholder/argument count comparison dominates every indexing of the argument list; (C14.tmpl) the template scanner's step table (3 states x {'{','}',other}) is extracted and equals " +
 		"the reference: [kind,start,end) triples, '{' inside a placeholder and '}' outside one are errors, an unterminated placeholder is an error; (C14.directive) the directive machine's accepted language equals " +
 		"[+]?(.D*)?[E%]? on ALL strings (product automaton) and the five documented forms map to the verbs %.6g %.Nf %+.6g %.Nf(x100)% %.NE; a '#' directive on a non-number and an unknown directive are errors; " +
-		"(C14.bound) the precision accumulator is rejected inside the digit loop once it exceeds its bound (no overflow). NOT decided: the digits fmt renders, 分隔/替换 semantics (delegated to package strings)."
+		"(C14.bound) the precision accumulator is rejected inside the digit loop once it exceeds its bound (no overflow). Also: 长度/字数 count the current text on every call (no remembered count). NOT decided: the digits fmt renders, 分隔/替换 semantics (delegated to package strings)."
 	R.Assumptions = []string{"fmt.Sprintf renders %f/%E/%g as documented", "the reference step tables in c14.go transcribe manual ch.6"}
 	u := c.Core()
 	checkTextUnits(c, u)
@@ -94,6 +94,48 @@ func checkTextUnits(c *Ctx, u *Universe) {
 			}
 		}
 		R.check(n >= 1 && !bad, "C14.units", "pkg/value."+s.fn, u.pos(f.Pos()), "counts/decodes Unicode characters ("+s.callee+")", "does not count characters through "+s.callee)
+		if s.fn == "strGetLength" {
+			// the length is counted from the current text on every call (texts are rewritten in place by some
+			// methods, so a remembered count goes stale)
+			fresh, nn := true, 0
+			for _, cs := range u.callsNamed(f, "pkg/value.NewNumber") {
+				nn++
+				var srcs []ssa.Value
+				var expand func(v ssa.Value, seen map[ssa.Value]bool)
+				expand = func(v ssa.Value, seen map[ssa.Value]bool) {
+					if seen[v] {
+						return
+					}
+					seen[v] = true
+					switch x := v.(type) {
+					case *ssa.Convert:
+						expand(x.X, seen)
+					case *ssa.Phi:
+						for _, e := range x.Edges {
+							expand(e, seen)
+						}
+					default:
+						srcs = append(srcs, v)
+					}
+				}
+				expand(cs.Common().Args[0], map[ssa.Value]bool{})
+				for _, src := range srcs {
+					call, isCall := src.(*ssa.Call)
+					if isCall && u.callName(call) == s.callee {
+						if _, isVal := fieldLoad(call.Call.Args[0], "value"); isVal {
+							continue
+						}
+					}
+					if isCall {
+						if _, isLen := lenArg(call); isLen {
+							continue
+						}
+					}
+					fresh = false
+				}
+			}
+			R.check(fresh && nn >= 1, "C14.units", "pkg/value.strGetLength:recounted", u.pos(f.Pos()), "the character count is computed from the text's current value on each call", "the reported length does not come (only) from counting the current text: a remembered count is stale after the text was rewritten in place")
+		}
 	}
 
 	// C14.count: argument-count comparison dominates the indexing of the argument list
